@@ -382,17 +382,62 @@ def _merge(ck, p, byk):
         cfg = Cfg(f)
         pv = Prov(f)
         ins = [(bi, t) for bi, t in f.calls() if method(t) == "insert" and "inner" in arg_fields(pv, t["args"][0])]
-        ok = bool(ins)
+        ok = len(ins) == 1
         detail = "insert sites=%d" % len(ins)
+        loops = cfg.natural_loops()
         for bi, t in ins:
-            g = gate_for(f, cfg, bi, lambda x: method(x) == "is_none", want=False)
-            g2 = gate_for(f, cfg, bi, lambda x: method(x) == "is_some", want=True)
-            same = False
-            for gb, gt in g + g2:
-                same = same or (_entry_call(f, pv, gt["args"][0]) & _entry_call(f, pv, t["args"][2]) != set())
-            if not same:
+            inside = [h for h, body in loops.items() if bi in body]
+            if not inside:
                 ok = False
-                detail += "; insert at %s is not guarded by !val.is_none() on the inserted value" % f.loc(t["ln"])
+                detail += "; the insert is not inside the loop over the other configuration"
+                continue
+            head = max(inside, key=lambda h: len(loops[h]))
+            body = loops[head]
+            entry = _entry_call(f, pv, t["args"][2])
+            if not entry:
+                ok = False
+                detail += "; the inserted value is not the entry of the other configuration"
+                continue
+            # every branch inside the loop that can route an entry around the insert must be a test of
+            # `val` being Some / None - nothing else may decide whether an explicit entry is copied
+            extra = []
+            n_tests = 0
+            for b2 in sorted(body):
+                t2 = f.blocks[b2]["t"]
+                if t2["k"] != "switch" or b2 == head or not cfg.reaches(b2, [bi], avoid=[head]):
+                    continue
+                succs = [x for _, x in t2["targets"]] + ([t2["otherwise"]] if t2.get("otherwise") is not None else [])
+                skips = [x for x in succs if x in body and x != bi and not cfg.reaches(x, [bi], avoid=[head])]
+                if not skips:
+                    continue
+                # what is switched on?
+                dl = place_of(t2["discr"])[0] if place_of(t2["discr"]) else None
+                kind = None
+                for (b3, si, k3, x3) in pv.defs.get(dl, []):
+                    if k3 == "assign" and x3["rv"]["k"] == "discr":
+                        src = x3["rv"]["place"]
+                        if _entry_call(f, pv, {"c": [src[0]]}) and f.local_tystr(src[0]).replace("&", "").strip().startswith(("std::option::Option<bool>", "core::option::Option<bool>")) and not [e for e in src[1:] if e != "*"]:
+                            kind = "option-discriminant"
+                    elif k3 == "call" and method(x3) in ("is_none", "is_some") and _entry_call(f, pv, x3["args"][0]):
+                        kind = "is_none/is_some"
+                if kind is None:
+                    for (b3, si, k3, x3) in pv.defs.get(dl, []):
+                        if k3 == "assign" and x3["rv"]["k"] == "use" and place_of(x3["rv"]["op"]):
+                            for (b4, s4, k4, x4) in pv.defs.get(place_of(x3["rv"]["op"])[0], []):
+                                if k4 == "call" and method(x4) in ("is_none", "is_some") and _entry_call(f, pv, x4["args"][0]):
+                                    kind = "is_none/is_some"
+                if kind:
+                    n_tests += 1
+                else:
+                    extra.append(f.loc(t2.get("ln") or t["ln"]))
+            if extra:
+                ok = False
+                detail += "; besides `val` being set, another condition (at %s) decides whether an explicit entry of the other configuration is copied: an explicit choice can be dropped" % ", ".join(sorted(set(extra)))
+            elif n_tests == 0:
+                ok = False
+                detail += "; no test of `val` being set guards the insert: unset entries overwrite explicit ones"
+            else:
+                detail += "; the insert is skipped only when `val` is None (%d test(s)), every set entry is copied" % n_tests
         ck.decide(rule, "LintGroupConfig::merge_from", ok, f.span, detail)
     fs = byk.get("LintGroupConfig::fill_with_curated")
     if ck.anchor(rule, "LintGroupConfig::fill_with_curated", fs):
